@@ -17,7 +17,8 @@ are skipped in their entirety. -/
 theorem decode_segmentation (chunks : List Bytes) (fuel : Nat)
     (hf : fuel ≥ 2 * (chunks.length + chunks.flatten.length) + 2) :
     ∃ d', decodeStream fuel {} chunks [] = some (specDecode (chunks.flatten.length + 1) chunks.flatten, d') := by
-  sorry
+  have h := stream_ok fuel {} chunks [] (by simp [SInv]) rfl (by have : nu ({} : Dec).st = 0 := rfl; omega)
+  simpa [specFrom, spec] using h
 
 /-- well-formed datagrams: what 6.3 can carry and the endpoint accepts -/
 def SockWF (s : Ip.Sock) : Prop :=
@@ -35,21 +36,37 @@ def Datagram.WF (dg : Datagram) : Prop :=
 in order (zero-length names and payloads included). -/
 theorem spec_decode_encode (dgs : List Datagram) (h : ∀ dg ∈ dgs, dg.WF) (fuel : Nat) (hf : fuel ≥ dgs.length + 1) :
     specDecode fuel (dgs.map encodeIn).flatten = dgs := by
-  sorry
+  induction dgs generalizing fuel with
+  | nil =>
+    match fuel, hf with
+    | f + 1, _ => rfl
+  | cons dg dgs ih =>
+    match fuel, hf with
+    | f + 1, hf =>
+      obtain ⟨⟨hsp, hsi⟩, ⟨hdp, hdi⟩, _, hu, hl⟩ := h dg (List.mem_cons_self)
+      have hlen : hdrNoLen + dg.app.length + dg.payload.length < 4294967296 := by
+        have : maxIn = 65471 := rfl
+        omega
+      simp only [List.map_cons, List.flatten_cons, encodeIn_eq]
+      rw [specDecode_record _ hlen _ _ (encBody_length dg), specRecord_encBody dg hsp hsi hdp hdi hu hl,
+        ih (fun dg' hm => h dg' (List.mem_cons_of_mem _ hm)) f (by simp only [List.length_cons] at hf; omega)]
+      rfl
 
 /-- hence, end to end, for every segmentation -/
 theorem decode_encode (dgs : List Datagram) (h : ∀ dg ∈ dgs, dg.WF) (chunks : List Bytes)
     (hc : chunks.flatten = (dgs.map encodeIn).flatten) (fuel : Nat)
     (hf : fuel ≥ 2 * (chunks.length + chunks.flatten.length) + 2) :
     ∃ d', decodeStream fuel {} chunks [] = some (dgs, d') := by
-  sorry
+  obtain ⟨d', hd'⟩ := decode_segmentation chunks fuel hf
+  refine ⟨d', ?_⟩
+  rw [hd', hc, spec_decode_encode dgs h _ (by have := encodeIn_flatten_length dgs; omega)]
 
 /-- **Resynchronisation**: a complete record the endpoint does not accept is skipped entirely and
 decoding resumes at the next record boundary -/
 theorem resync (len : Nat) (hl : len < 4294967296) (body rest : Bytes) (hb : body.length = len)
     (hr : specRecord len body = none) (fuel : Nat) :
     specDecode (fuel + 1) (u32be len ++ body ++ rest) = specDecode fuel rest := by
-  sorry
+  rw [specDecode_record len hl body rest hb fuel, hr]; rfl
 
 example : specRecord 5 [1, 2, 3, 4, 5] = none := by decide
 
@@ -58,7 +75,8 @@ theorem encode_out_length (s d : Ip.Sock) (p : Bytes) :
     (encodeOut s d p).take 4 = u32be (36 + p.length) ∧
     (∀ a b c e, putFixedIp (.v4 a b c e) = [0, 0, 0, 0, 0, 0, 0, 0, 0, 0, 0, 0, a, b, c, e]) ∧
     (∀ ip, (putFixedIp ip).length = 16) := by
-  sorry
+  refine ⟨?_, fun _ _ _ _ => rfl, putFixedIp_length⟩
+  simp [encodeOut, u32be]
 
 /-- **Bounded buffering**: the decoder never holds more than one maximal payload -/
 def Dec.Inv (d : Dec) : Prop :=
@@ -73,10 +91,10 @@ theorem inv_init : ({} : Dec).Inv := by
   simp [Dec.Inv]
 
 theorem inv_step (d : Dec) (data : Bytes) (h : d.Inv) (hw : ∀ x ∈ data, x < 256) (hbw : ∀ x ∈ d.buffer, x < 256) :
-    ∃ d' out tail, decodeOnce d data = .next d' out tail ∧ d'.Inv := by
-  sorry
+    ∃ d' out tail, decodeOnce d data = .next d' out tail ∧ d'.Inv :=
+  fullInv_step d data h hw hbw
 
-theorem inv_buffer_bounded (d : Dec) (h : d.Inv) : d.buffer.length ≤ maxIn := by
-  sorry
+theorem inv_buffer_bounded (d : Dec) (h : d.Inv) : d.buffer.length ≤ maxIn :=
+  fullInv_buffer_bounded d h
 
 end TT.Udp
